@@ -172,6 +172,15 @@ def qf_facts(apps):
         elif kind in ("max", "min"):
             w = fresh_int("w"); _, _, bw = instantiate(a, w)
             facts.append(z3.Implies(n > 0, z3.And(w >= 0, w < n, a == bw)))
+        elif kind in ("any", "count"):
+            # duality with the universally quantified node over the negated body (same binder, same free variables):
+            #   any(n, b) == not all(n, not b)        count(n, b) == 0  <=>  all(n, not b);   0 <= count <= max(n, 0)
+            dual = _mk_raw("all", e.n, e.var, z3.Not(e.body))
+            subs = list(zip(e.fv, a.children()))
+            dual = z3.substitute(dual, *subs) if subs else dual
+            if kind == "any": facts.append(a == z3.Not(dual))
+            else:
+                facts.append((a == 0) == dual); facts.append(a >= 0); facts.append(a <= z3.If(n >= 0, n, 0))
     return facts
 
 
